@@ -18,8 +18,20 @@ INGEST = RM + '.async_updates_from_response'
 MUTATORS = {'append', 'add', 'extend', 'update', 'insert', 'remove', 'discard', 'pop', 'clear'}
 
 
+_WRAPPED: Dict[str, str] = {}
+
+
 def _arg_names(call: ast.Call) -> List[str]:
-    return [a.id for a in call.args if isinstance(a, ast.Name)]
+    """Local collections handed to a call, also when wrapped on the way (list(x), tuple(x), set(x), dict.fromkeys(x), sorted(x)):
+    the wrapper is remembered -- one that merges equal records changes which copy of a repeated record reaches the cache."""
+    out = []
+    for a in call.args:
+        if isinstance(a, ast.Name):
+            out.append(a.id)
+        elif isinstance(a, ast.Call) and len(a.args) >= 1 and isinstance(a.args[0], ast.Name) and norm(a.func) in ('list', 'tuple', 'set', 'frozenset', 'sorted', 'dict.fromkeys', 'reversed', 'iter'):
+            out.append(a.args[0].id)
+            _WRAPPED[a.args[0].id] = norm(a.func)
+    return out
 
 
 def ingest_anatomy(ctx: Any) -> Dict[str, Any]:
@@ -62,8 +74,10 @@ def ingest_anatomy(ctx: Any) -> Dict[str, Any]:
         elif last is not None:
             # the collection may be wrapped on its way to the listeners: list(updates.values()), tuple(updates), ...
             an['updates'] += [x.id for x in ast.walk(last) if isinstance(x, ast.Name) and x.id not in ('list', 'tuple', 'sorted', 'set')][:1]
+    _WRAPPED.clear()
     an['adds'] = [n for c in an['add'] for n in _arg_names(c)]
     an['removes'] = [n for c in an['remove'] for n in _arg_names(c)]
+    an['wrapped'] = {k: v for k, v in _WRAPPED.items() if k in an['adds']}
     an['unique'] = [n for c in an['mark'] for n in _arg_names(c)[:1]]
     if not an['updates'] or not an['adds'] or not an['removes']:
         raise AnalysisError(f'{f.where()}: collections handed to notify/add/remove are not plain local names')
@@ -119,6 +133,11 @@ def pair_per_live_record(ctx: Any, R: str) -> List[Ob]:
         oc, und = fd.run_paths(ctx.prog, f.module, cfg, atoms, eff_a, start=head, stop=lambda n: n is head, loop_bound=1, for_iter=lambda n, e: True)
         seqs = {tuple(sorted(x for x in strip_ret(t) if x in ('PAIR', 'ADD'))) for t in oc}
         obs.append(ob(R, f, f'new live {nm} record', 'it is reported to the listeners and queued for the cache', seqs == {('ADD', 'PAIR')}, f'effects on the feasible paths: {sorted(seqs)}'))
+    # what was queued is what reaches the cache: the add collections are handed over as collected, or as an order-keeping full copy;
+    # a set / dict view merges equal records -- two copies of one record with different TTLs are EQUAL -- and keeps the first copy
+    # where the last one must win
+    merging = {k: v for k, v in an.get('wrapped', {}).items() if v in ('set', 'frozenset', 'dict.fromkeys', 'sorted', 'reversed')}
+    obs.append(ob(R, f, (an['add'][0] if an['add'] else f.name), 'every record queued for the cache is handed to the cache, in datagram order (no merging of equal records on the way: a record repeated in one datagram with different TTLs ends up with the last one)', not merging, '; '.join(f'`{k}` is handed over through {v}(...)' for k, v in merging.items())))
     # a withdrawn record (TTL 0 / expired on arrival): reported and queued for removal exactly when a cached copy exists,
     # ignored otherwise -- never added
     rems = set(an['removes'])
@@ -173,6 +192,14 @@ def previous_obligations(ctx: Any, R: str) -> List[Ob]:
                 if len(defs) > 1:
                     why = f'`{norm(old_)}` is reassigned after the lookup: ' + '; '.join(norm(d)[:60] for d in defs if d not in lookups)
             obs.append(ob(R, f, c, '`previous` of each pair is the cached copy looked up for that same record (None iff none existed)', good, why))
+    # ... and that lookup finds the cached copy whatever its age: a copy whose TTL has run out but which the purge has not
+    # collected yet IS the previous copy (a lookup that hides it turns a refresh into a second `new`)
+    from .c05 import lookups as _lookups
+
+    for o in _lookups.fn(ctx):
+        if o.statement.startswith('the unique lookup returns the stored copy'):
+            o.rule = R
+            obs.append(o)
     return obs
 
 
